@@ -40,11 +40,6 @@ impl MatchFn {
 pub assume_specification[ char::is_numeric ](c: char) -> (r: bool)
     ensures r == spec_is_numeric(c);
 // (char::is_whitespace is specified by vstd: r == vstd::std_specs::char::is_white_space(c))
-// TRUSTED leaf: the closure of \w (`ch.is_alphanumeric() || ch.join_c() || ch.gc() == Gc::Pc || ch.gc() == Gc::Mn`) calls seshat's Unicode tables
-#[verifier::external_body]
-pub fn verif_perl_word_leaf() -> (r: MatchFn)
-    ensures forall|c: char| #[trigger] r.sem()(c) == spec_perl_word(c)
-{ unimplemented!() }
 pub assume_specification[ char::is_alphanumeric ](c: char) -> (r: bool)
     ensures r == spec_is_alphanumeric(c);
 pub assume_specification[ char::is_alphabetic ](c: char) -> (r: bool)
